@@ -239,6 +239,43 @@ def run_scenario(chk, sc, cfgseed, ndims):
                 for j in range(len(fields)):
                     if reg.token_of(arr[..., j].ravel(order="F")) != ["A", l, b + 1, j + 1]:
                         return "unpickled reader returns other data for level %d box %d field %d" % (l, b, j)
+        if cfgseed % 4 == 0:
+            # a SECOND marination after the plotfile was rewritten IN PLACE (a later output of the same run written to the same
+            # path: every file overwritten, no entry created or removed, so the directory's own time stamp does not move): the
+            # pickle must be the reader of what the directory holds NOW
+            import copy as _copy
+            cfg2 = _copy.copy(cfg_)
+            cfg2.seed = cfg_.seed + 1
+            cfg2.time = 2.0 * cfg_.time + 1.0 if np.isfinite(cfg_.time) else 7.5
+            ap2 = _copy.deepcopy(ap)
+            ap2["time"] = cfg2.time
+            d2 = os.path.join(os.path.dirname(d), "later")
+            gamma.write_plotfile(d2, ap2, cfg2)
+            for root, _dirs, files in os.walk(d2):
+                for fn in files:
+                    dst = os.path.join(d, os.path.relpath(os.path.join(root, fn), d2))
+                    with open(os.path.join(root, fn), "rb") as fsrc, open(dst, "r+b") as fdst:
+                        fdst.seek(0)
+                        fdst.write(fsrc.read())
+                        fdst.truncate()
+            sys.argv = ["marinate", d]
+            try:
+                with core.quiet():
+                    marinate.main()
+            except Exception as e:
+                return "a second marinate of the same path raised %s: %s" % (type(e).__name__, str(e)[:150])
+            finally:
+                sys.argv = old
+            with open(d + ".pkl", "rb") as f:
+                pk2 = pickle.load(f)
+            with core.quiet():
+                fresh2 = PlotfileCooker(d, maxmins=True, ghost=True)
+            dv = deep_diff(vars(pk2), vars(fresh2), "")
+            if dv:
+                return ("marinate run again after the plotfile was rewritten in place: the unpickled reader is not the reader of "
+                        "what the directory holds now: %s" % dv)
+            os.remove(d + ".pkl")
+            return None
         os.remove(d + ".pkl")
     if alpha.tree_digest(d) != before:
         return "the input plotfile was modified"
